@@ -98,6 +98,26 @@ example : evalsTo [.num 1, .plus, .num 2, .star, .num 3, .shl, .num 1] 13 = true
 example : evalsTo [.minus, .num 2, .shl, .num 1, .plus, .num 3] (-1) = true := by decide
 
 
+/-- every constant the prophy parser accepts is representable in the generated C++ (`enum { K = v }` with an
+    `int64_t` or, with the `u` suffix `_to_literal` adds to positive numbers, a `uint64_t` enumerator) as the same integer -/
+theorem C14_constant_fits_64_bits (env : String → Option Int) (s : String) (v : Int)
+    (h : constText env s = .value v) :
+    (-((2 ^ 63 : Nat) : Int) ≤ v ∧ v < ((2 ^ 63 : Nat) : Int)) ∨ (0 < v ∧ v < ((2 ^ 64 : Nat) : Int)) := by
+  unfold constText at h
+  split at h
+  · rename_i w _
+    split at h
+    · rename_i hc
+      injection h with h
+      subst h
+      simp only [constOk, Bool.and_eq_true, decide_eq_true_eq] at hc
+      omega
+    · cases h
+  · rename_i o hne
+    cases o <;> first | (exact absurd rfl (hne _)) | skip
+    all_goals (first | cases h | skip)
+    all_goals simp_all
+
 /-- the parser's language is exactly "the tree written with the parentheses the precedence table
     requires, plus any redundant ones" (`Rep 0`): levels 1 `+ -`, 2 `* /`, 3 `<< >>`, unary minus
     above, left-associative; so every text denotes at most one tree -/
